@@ -5,36 +5,6 @@ From DS Require Import RunnerLib SortedView KllDefs.
 Import ListNotations.
 Local Open Scope Z_scope.
 
-(* ===================== choice monad ===================== *)
-Inductive leaf {A} : M A -> A -> Prop :=
-| leaf_ret a : leaf (Ret a) a
-| leaf_flip k c a : leaf (k c) a -> leaf (Flip k) a.
-
-Lemma leaf_ret_inv {A} (a b : A) : leaf (Ret a) b -> b = a.
-Proof. inversion 1; auto. Qed.
-
-Lemma leaf_flip_inv {A} (k : bool -> M A) b : leaf (Flip k) b -> exists c, leaf (k c) b.
-Proof. inversion 1; subst; eauto. Qed.
-
-Lemma leaf_bind {A B} (m : M A) (f : A -> M B) b :
-  leaf (bind m f) b <-> exists a, leaf m a /\ leaf (f a) b.
-Proof.
-  split.
-  - revert b; induction m as [a|k IH]; simpl; intros b H.
-    + exists a; split; [constructor|assumption].
-    + apply leaf_flip_inv in H as [c H]. apply IH in H as (a & H1 & H2).
-      exists a; split; [econstructor; eassumption|assumption].
-  - intros (a & H1 & H2). induction H1; simpl; auto. econstructor; eauto.
-Qed.
-
-(* every outcome the runner can produce from reported coins is a leaf *)
-Lemma replay_leaf {A} (m : M A) : forall cs a r, replay m cs = Some (a, r) -> leaf m a.
-Proof.
-  induction m as [a0|k IH]; simpl; intros cs a r H.
-  - inversion H; subst; constructor.
-  - destruct cs as [|c cs]; [discriminate|]. econstructor. eapply IH; eauto.
-Qed.
-
 (* ===================== lists ===================== *)
 Notation ssorted := (StronglySorted Z.le).
 
